@@ -117,12 +117,15 @@ def params_of(ops):
 
 # ---------------------------------------------------------------- scenario objects
 def template(n, loss):
+    """loss: False / True, or "u" / "lu" for the flavour with a 3-line unitary block on the last three lines (LwCircuit!TmplU)"""
     c = lw.Circuit(n)
     for i in range(1, n + 1):
         c.ps(i - 1, phase(i))
     for i in range(1, n):
         c.bs(i - 1, i, reflectivity=0.5, convention="Rx" if i % 2 == 1 else "H")
-    if loss:
+    if loss in ("u", "lu") and n >= 3:
+        c.add(lw.Unitary(UBLOCKS["C3"].copy()), n - 3)
+    if loss in (True, "lu"):
         c.loss(0, 0.5)
     return c
 
@@ -589,11 +592,23 @@ def apply_event(objs, ev, params=NOPARAMS):
         if tuple(a[0]) == (99,):
             objs[t].barrier()
         else:
-            objs[t].barrier(list(a[0]))
+            arg = list(a[0])
+            try:
+                objs[t].barrier(arg)
+            finally:
+                arg.clear()         # the caller's list is the caller's: changing it afterwards must not reach the circuit
     elif name == "swap":
-        objs[t].mode_swaps(dict(zip(a[0], a[1])))
+        arg = dict(zip(a[0], a[1]))
+        try:
+            objs[t].mode_swaps(arg)
+        finally:
+            arg.clear()             # same for the swap dictionary
     elif name == "u":
-        objs[t].add(lw.Unitary(UBLOCKS[a[1]].copy()), mode_arg(a[0]))
+        arr = UBLOCKS[a[1]].copy()
+        try:
+            objs[t].add(lw.Unitary(arr), mode_arg(a[0]))
+        finally:
+            arr[:] = 0              # ... and for the matrix handed to Unitary
     elif name == "herald":
         objs[t].herald(a[0], mode_arg(a[1]), mode_arg(a[2]))
     elif name == "add":
@@ -817,7 +832,9 @@ def dump_worker(st, ctx):
 def template_record(n, loss):
     ops = [("ps", (i,), i) for i in range(1, n + 1)]
     ops += [("bs", (i, i + 1), (1, "Rx" if i % 2 == 1 else "H")) for i in range(1, n)]
-    if loss:
+    if loss in ("u", "lu") and n >= 3:
+        ops.append(("u", (n - 2, n - 1, n), "C3"))
+    if loss in (True, "lu"):
         ops.append(("loss", (1,), 1))
     return {"nu": n, "anc": (), "hord": (), "ops": tuple(ops)}
 
